@@ -48,6 +48,11 @@ theorem bind_reads_subconn_under_lock : bindReadsSubConnUnderLock = true := by d
     callback, completion or pick of the balancer's tables can run in between) -/
 theorem balancer_callbacks_hold_lock : balancerCallbacksHoldLock = true := by decide
 
+/-- C07 (F28): the detector, which decides about a refresh without the balancer lock, starts it only
+    through `refreshSince`, which re-validates the decision under the lock (the last-response time it
+    was based on must still be the channel's): in the model, decision and refresh are one atomic step -/
+theorem detector_decision_revalidated : detectorRefreshesUnvalidated = 0 := by decide
+
 theorem balancer_name : balancerName = "grpc_gcp" := by decide
 
 end GcpVerif.Ties
